@@ -1,12 +1,11 @@
 use bytes::Bytes;
-use zstd::decode_all;
 
 use crate::{
     backend::{
         BytesList, FileType, ReadBackend, WriteBackend,
         decrypt::{DecryptFullBackend, DecryptReadBackend, DecryptWriteBackend},
     },
-    error::{ErrorKind, RusticError, RusticResult},
+    error::RusticResult,
     id::Id,
 };
 
@@ -51,32 +50,13 @@ impl<BE: DecryptFullBackend> DecryptReadBackend for DryRunBackend<BE> {
     ///
     /// * If the backend does not support decryption.
     /// * If decoding the zstd compressed data failed.
+    /// * If the wrapped backend verifies ids and the hash of the stored data is not the given id.
     ///
     /// # Returns
     ///
     /// The data read.
     fn read_encrypted_full(&self, tpe: FileType, id: &Id) -> RusticResult<Bytes> {
-        let decrypted = self.decrypt(&self.read_full(tpe, id)?)?;
-        Ok(match decrypted.first() {
-            Some(b'{' | b'[') => decrypted, // not compressed
-            Some(2) => decode_all(&decrypted[1..])
-                .map_err(|err|
-                    RusticError::with_source(
-                        ErrorKind::Internal,
-                        "Decoding zstd compressed data failed. This can happen if the data is corrupted. Please check the backend for corruption and try again. You can also try to run `rustic check` to check for corruption.",
-                        err
-                        )
-                )
-                ?, // 2 indicates compressed data following
-            _ => {
-                return Err(
-                    RusticError::new(
-                        ErrorKind::Unsupported,
-                        "Decryption not supported. The data is not in a supported format.",
-                ));
-            }
-        }
-        .into())
+        self.be.read_encrypted_full(tpe, id)
     }
 }
 
